@@ -264,13 +264,27 @@ Definition c5_triggers (g : gid) (kids : list txid) (ops : list op) (rs : list (
               | _ => []
               end) (combine ops rs).
 
-Definition c5_check (w : world) (q : query) (bh : N) (ops : list op) (prev : option bobs) (ob : bobs) (g : gid) : bool :=
+(** the requests of the whole history that carry group [g] (its declared members as far as the history shows them) *)
+Definition c5_declared (all : list item) (g : gid) : list txid :=
+  flat_map (fun it => match it with
+                      | IBlock ops =>
+                          flat_map (fun o => match o with
+                                             | OIbtp b _ => if is_request b && option_eqb gid_eqb (group_gid b) (Some g) then [b_id b] else []
+                                             | _ => []
+                                             end) ops
+                      | IRestart => []
+                      end) all.
+
+Definition c5_check (w : world) (q : query) (all : list item) (bh : N) (ops : list op) (prev : option bobs) (ob : bobs) (g : gid) : bool :=
   match obs_ch q ob g with
   | None => true
   | Some (gs, hh, cnt, kids) =>
       let pch := match prev with Some pb => obs_ch q pb g | None => None end in
       let pgs := match pch with Some (x, _, _, _) => Some x | None => None end in
       let pkids := match pch with Some (_, _, _, k) => k | None => [] end in
+      (* the record the group is filed under holds only this group's own children (two declared groups never
+         share a record) *)
+      forallb (fun k => mem_id (fst k) (c5_declared all g)) kids &&
       (* SUCCESS only with every declared child SUCCESS *)
       (if gs =? ST_SUCCESS then (N.of_nat (List.length kids) =? cnt) && forallb (fun k => snd k =? ST_SUCCESS) kids else true) &&
       (* after a failure / timeout every child is in a failure or rollback status *)
@@ -297,17 +311,17 @@ Definition c5_check (w : world) (q : query) (bh : N) (ops : list op) (prev : opt
        else true)
   end.
 
-Fixpoint c05_go (w : world) (q : query) (h : N) (prev : option bobs) (items : list item) (tr : list bobs) : bool :=
+Fixpoint c05_go (w : world) (q : query) (all : list item) (h : N) (prev : option bobs) (items : list item) (tr : list bobs) : bool :=
   match items with
   | [] => match tr with [] => true | _ => false end
-  | IRestart :: r => c05_go w q h prev r tr
+  | IRestart :: r => c05_go w q all h prev r tr
   | IBlock ops :: r =>
       match tr with
       | [] => false
-      | ob :: tr' => forallb (c5_check w q (h + 1) ops prev ob) (q_gids q) && c05_go w q (h + 1) (Some ob) r tr'
+      | ob :: tr' => forallb (c5_check w q all (h + 1) ops prev ob) (q_gids q) && c05_go w q all (h + 1) (Some ob) r tr'
       end
   end.
-Definition c05_b (w : world) (q : query) (items : list item) (tr : list bobs) : bool := c05_go w q 2 None items tr.
+Definition c05_b (w : world) (q : query) (items : list item) (tr : list bobs) : bool := c05_go w q items 2 None items tr.
 
 (** * C06: an id is announced as timed out exactly at H+T, iff no receipt was accepted by then *)
 Record c6e := { c6_exp : N; c6_rcv : bool }.
